@@ -373,5 +373,5 @@ SUBS = [
              "to(dtype), train/eval, feature re-binding} on one hedger (Linear / MLP / recurrent; H in {1,2}; inputs incl. log, "
              "max-log, module-output and prev_hedge features) with 2-3 derivatives on 2 underliers. Non-trivial: >=2 derivatives "
              "used with a state-dependent input, or a computing op with a log feature.",
-        strategy=lambda tier: history_case(), examples={"quick": 640, "thorough": 6400}),
+        strategy=lambda tier: history_case(), examples={"quick": 640, "thorough": 6400}, fuzz={"thorough": 120.0}),
 ]
